@@ -143,13 +143,14 @@ public:
         return *this;
     }
 
-    // Construct from another compatible pixel type
+    // Construct from another compatible pixel type (homogeneous or not): pair the channels by color,
+    // exactly as the converting assignment and packed_pixel's converting constructor do.
     template <typename Pixel>
     pixel(Pixel const& p,
         typename std::enable_if<is_pixel<Pixel>::value>::type* /*dummy*/ = nullptr)
-        : parent_t(p)
     {
         check_compatible<Pixel>();
+        static_copy(p, *this);
     }
 
     template <typename Pixel>
